@@ -80,7 +80,14 @@ int main(int argc, char **argv) {
             if (rule == rule_gaussjacobi || rule == rule_gaussjacobiodd) { alpha = 0.5; beta = 0.25; }
             // number of points of a level as a double; levels whose count is beyond the int range of the library (exponential rules) are "too many"
             bool exponential = OneDimensionalMeta::getNumPoints(16, rule) > 4096;
-            auto np = [&](int l) -> double { return (l > 16 && exponential) ? 1e18 : (l > 2000 ? 1e18 : (double) OneDimensionalMeta::getNumPoints(l, rule)); };
+            // the greedy sequences (leja, max/min-lebesgue, min-delta and their -odd variants) are optimised node by node beyond the
+            // stored ones: levels with more than 41 nodes count as "too many" as well
+            bool greedy = rule == rule_leja || rule == rule_lejaodd || rule == rule_maxlebesgue || rule == rule_maxlebesgueodd
+                          || rule == rule_minlebesgue || rule == rule_minlebesgueodd || rule == rule_mindelta || rule == rule_mindeltaodd;
+            auto np = [&](int l) -> double {
+                if ((l > 16 && exponential) || l > 2000) return 1e18;
+                double n = (double) OneDimensionalMeta::getNumPoints(l, rule);
+                return (greedy && n > 41.0) ? 1e18 : n; };
             TasmanianSparseGrid grid;
             bool made = false;
             out = "r " + id;
